@@ -73,7 +73,7 @@ func VP_C18_isolation() {
 	t := targets[vpChoose("target", len(targets))]
 	val := vpObj(hostile, "v", 1, 2)
 	var err error
-	switch vpChoose("attack", 6) {
+	switch vpChoose("attack", 7) {
 	case 0: // put into the container (dict key from a pool of existing and new names, array at a symbolic index)
 		if arr, ok := t.(Array); ok {
 			hostile.Stack = append(hostile.Stack, arr, Integer(vpInt64("idx")), val)
@@ -111,11 +111,64 @@ func VP_C18_isolation() {
 			hostile.Stack = []Object{arr, Procedure{Operator("pop"), arr, Integer(3), Name("z"), Operator("put")}}
 		}
 		err = vpRunOp(hostile, "forall")
-	default: // a failing program that redefines an error handler first
+	case 5: // a failing program that redefines an error handler first
 		hostile.Stack = append(hostile.Stack, hostile.ErrorDict, Name("typecheck"), Procedure{Integer(1), Operator("stop")})
 		err = vpRunOp(hostile, "put")
 		hostile.Stack = append(hostile.Stack, Name("x"), Name("y"))
 		vpRunOp(hostile, "add")
+	default: // write into the composite object an operator hands out: the next instance's result of the same operator is untouched
+		ops := []string{"matrix", "array", "dict", "string"}
+		op := ops[vpChoose("producer", len(ops))]
+		produce := func(in *Interpreter) Object {
+			in.Stack = in.Stack[:0]
+			if op != "matrix" {
+				in.Stack = append(in.Stack, Integer(2))
+			}
+			if vpRunOp(in, op) != nil || len(in.Stack) != 1 {
+				return nil
+			}
+			res := in.Stack[0]
+			in.Stack = in.Stack[:0]
+			return res
+		}
+		flat := func(o Object) []Object {
+			switch x := o.(type) {
+			case Array:
+				return append([]Object{Integer(len(x))}, x...)
+			case String:
+				out := []Object{Integer(len(x))}
+				for _, c := range x {
+					out = append(out, Integer(c))
+				}
+				return out
+			case Dict:
+				return []Object{Integer(len(x))}
+			}
+			return nil
+		}
+		want := flat(produce(ref))
+		h := produce(hostile)
+		vpAssert("producer-works", want != nil && h != nil)
+		switch h.(type) {
+		case Dict:
+			hostile.Stack = append(hostile.Stack, h, Name("k"), val)
+		case String:
+			hostile.Stack = append(hostile.Stack, h, Integer(vpChoose("slot", 2)), Integer(65))
+		default:
+			hostile.Stack = append(hostile.Stack, h, Integer(vpChoose("slot", 2)), val)
+		}
+		err = vpRunOp(hostile, "put")
+		vpAssert("hostile-put-runs", err == nil)
+		hostile.Stack = hostile.Stack[:0]
+		victim := NewInterpreter()
+		g := produce(victim)
+		got := flat(g)
+		same := len(got) == len(want)
+		for i := 0; same && i < len(want); i++ {
+			same = vpSameObj(got[i], want[i])
+		}
+		vpAssert("operator-result-unaffected-by-other-instance", same)
+		vpAssert("operator-result-not-shared-between-instances", !vpSameRef(g, h))
 	}
 	_ = err
 	fresh := NewInterpreter()
